@@ -164,6 +164,16 @@ def project(doc):
     return out, par
 
 
+def dup_nodes(doc) -> int:
+    """number of node objects that occur more than once in the tree (incl. system messages)"""
+    seen, dups = set(), 0
+    for n in doc.findall():
+        if id(n) in seen:
+            dups += 1
+        seen.add(id(n))
+    return dups
+
+
 def idinfo(doc):
     """per element (document order, system messages skipped): ids, refid, backrefs, warned"""
     from docutils import nodes
